@@ -513,17 +513,25 @@ func abciMultiRun(tr *abciTrace, dir string, idx int, run abciRun, sig *abciSig)
 			abciPObs(tr, what, cr, sig, abciSettle(self) && sig.drain(), "nil")
 		}
 	}
+	// clean up: stop the clients first (no error, so the watcher does not signal), then the links;
+	// every signal still on its way is consumed before the next run starts
 	tr.ev("Cleanup", abciM{})
-	for _, l := range links {
-		l.cut()
-		l.ln.Close()
+	if mac != nil && mac.IsRunning() {
+		mac.Stop()
 	}
 	for _, cl := range cr.made {
 		if cl.IsRunning() {
 			cl.Stop()
 		}
 	}
+	abciSettle(self)
+	for _, l := range links {
+		l.cut()
+		l.ln.Close()
+	}
 	srv.Stop()
+	abciSettle(self)
+	sig.drain()
 }
 
 // one call through every method of the four wrappers; which application method it reached
@@ -589,6 +597,8 @@ func abciPLocalRun(tr *abciTrace, run abciRun) {
 	}
 	var mu sync.Mutex
 	ncbS, ncbE := 0, 0
+	cbgates := map[string]chan struct{}{}
+	inCb := []string{}
 	cb := func(req *types.Request, res *types.Response) {
 		lab := "?"
 		switch r := req.Value.(type) {
@@ -599,8 +609,15 @@ func abciPLocalRun(tr *abciTrace, run abciRun) {
 		}
 		mu.Lock()
 		ncbS++
+		ch := cbgates[lab]
+		if ch != nil {
+			inCb = append(inCb, lab)
+		}
 		mu.Unlock()
 		tr.ev("CbS", abciM{"k": "g", "r": lab, "x": lab, "rt": "-", "xt": "-", "by": "caller"})
+		if ch != nil {
+			<-ch
+		}
 		mu.Lock()
 		ncbE++
 		mu.Unlock()
@@ -639,8 +656,9 @@ func abciPLocalRun(tr *abciTrace, run abciRun) {
 		app.mu.Unlock()
 		mu.Lock()
 		s, e := ncbS, ncbE
+		incb := append([]string{}, inCb...)
 		mu.Unlock()
-		tr.ev("LObs", abciM{"settled": settled, "final": final, "busy": busy, "inflight": infl, "inapp": inapp, "ncbS": s, "ncbE": e})
+		tr.ev("LObs", abciM{"settled": settled, "final": final, "busy": busy, "inflight": infl, "inapp": inapp, "incb": incb, "ncbS": s, "ncbE": e})
 	}
 	obs(false)
 	for _, st := range run.Steps {
@@ -649,10 +667,15 @@ func abciPLocalRun(tr *abciTrace, run abciRun) {
 		case "StartCall":
 			conn, kind, call := st.str("conn"), st.str("kind"), st.num("call")
 			lab := "c" + strconv.Itoa(call)
-			if st.flag("gate") {
+			if st.str("gate") == "app" {
 				app.mu.Lock()
 				app.gates[lab] = make(chan struct{})
 				app.mu.Unlock()
+			}
+			if st.str("gate") == "cb" {
+				mu.Lock()
+				cbgates[lab] = make(chan struct{})
+				mu.Unlock()
 			}
 			ci := &abciPCall{call: call, conn: conn, done: make(chan struct{}), label: lab}
 			calls = append(calls, ci)
@@ -728,6 +751,23 @@ func abciPLocalRun(tr *abciTrace, run abciRun) {
 				tr.ev("ReleaseApp", abciM{"r": lab})
 				close(ch)
 			}
+		case "ReleaseCb":
+			mu.Lock()
+			var ch chan struct{}
+			lab := ""
+			if len(inCb) > 0 {
+				lab = inCb[0]
+				inCb = inCb[1:]
+				ch = cbgates[lab]
+				delete(cbgates, lab)
+			}
+			mu.Unlock()
+			if ch == nil {
+				tr.ev("Skip", abciM{"step": "ReleaseCb", "why": "nobody in a callback"})
+			} else {
+				tr.ev("ReleaseCb", abciM{"r": lab})
+				close(ch)
+			}
 		}
 		obs(false)
 	}
@@ -739,6 +779,12 @@ func abciPLocalRun(tr *abciTrace, run abciRun) {
 	}
 	app.gates = map[string]chan struct{}{}
 	app.mu.Unlock()
+	mu.Lock()
+	for _, ch := range cbgates {
+		close(ch)
+	}
+	cbgates = map[string]chan struct{}{}
+	mu.Unlock()
 	abciSettle(self)
 	mac.Stop()
 	abciSettle(self)
